@@ -29,6 +29,12 @@ class _Stop(Exception):
     """Raised when evaluation reaches the registry part (both pre-images are known)."""
 
 
+class _Return(Exception):
+    def __init__(self, value: Any):
+        super().__init__("return")
+        self.value = value
+
+
 @dataclass(frozen=True)
 class SymVal:
     """A typed symbolic property value / child attribute.  kind: str|int|bool|none|hex|fqn"""
@@ -165,6 +171,9 @@ class Evaluator:
         self.env: dict[str, Any] = {"self": self_obj}
         self.self_obj = self_obj
         self.constructs: set[str] = set()
+        self.assumed: list[str] = []
+        self.inlined: list[str] = []
+        self.depth = 0
 
     # ------------------------------------------------------------------ run
     def run(self) -> None:
@@ -204,6 +213,14 @@ class Evaluator:
                 self.assign(n.target, item)
                 for st in n.body:
                     self.stmt(st)
+        elif isinstance(n, ast.Return):
+            raise _Return(self.expr(n.value) if n.value is not None else None)
+        elif isinstance(n, ast.Try):
+            # assumption (recorded in the evidence): no exception is raised on the encoded path, so
+            # only the try body (and the else / finally blocks) is followed
+            self.assumed.append(f"no exception in the try block at source line {n.lineno}")
+            for st in n.body + n.orelse + n.finalbody:
+                self.stmt(st)
         elif isinstance(n, ast.Raise):
             raise Unencodable("raise reached on the encoded path", n)
         elif isinstance(n, ast.Pass):
@@ -398,8 +415,44 @@ class Evaluator:
             args[0].recorded[args[1]] = args[2]
             return None
         if any(self._symbolic(a) for a in args) or any(self._symbolic(v) for v in kwargs.values()):
+            target = getattr(fn, "__wrapped__", fn)  # functools wrappers (lru_cache ...): treated as pure
+            import types as _types
+
+            if isinstance(target, _types.FunctionType) and (target.__module__ or "").startswith("pyoak"):
+                return self.inline(target, args, kwargs, n)
             raise Unencodable(f"call of {getattr(fn, '__name__', fn)!r} with a symbolic argument", n)
         return fn(*args, **kwargs)
+
+    def inline(self, fn: Any, args: list[Any], kwargs: dict[str, Any], n: ast.AST) -> Any:
+        """Evaluate a helper function of the library symbolically (refactorings that move part of the
+        digest computation into a helper stay encodable).  Memoising wrappers are abstracted away."""
+        if self.depth > 6:
+            raise Unencodable("helper calls nested too deeply", n)
+        try:
+            src = textwrap.dedent(inspect.getsource(fn))
+            tree = ast.parse(src).body[0]
+            bound = inspect.signature(fn).bind(*args, **kwargs)
+            bound.apply_defaults()
+        except (OSError, TypeError, IndexError) as ex:
+            raise Unencodable(f"cannot inline {fn.__name__}: {ex}", n) from None
+        if not isinstance(tree, ast.FunctionDef):
+            raise Unencodable(f"cannot inline {fn.__name__}", n)
+        saved_env, saved_globals = self.env, self.globals
+        self.env = dict(bound.arguments)
+        self.globals = dict(fn.__globals__)
+        self.depth += 1
+        self.inlined.append(f"{fn.__module__}:{fn.__qualname__}")
+        try:
+            for st in tree.body:
+                if isinstance(st, ast.Expr) and isinstance(st.value, ast.Constant) and isinstance(st.value.value, str):
+                    continue  # docstring
+                self.stmt(st)
+            return None
+        except _Return as r:
+            return r.value
+        finally:
+            self.depth -= 1
+            self.env, self.globals = saved_env, saved_globals
 
 
 class _SymTest:
@@ -433,6 +486,8 @@ class PreImages:
     digest_size: Any
     accessor_calls: list[str]
     constructs: list[str]
+    inlined: list[str] = field(default_factory=list)
+    assumed: list[str] = field(default_factory=list)
 
 
 def preimages(cls: type, skeleton: Any, kinds: dict[str, str], tag: str) -> PreImages:
@@ -459,7 +514,7 @@ def preimages(cls: type, skeleton: Any, kinds: dict[str, str], tag: str) -> PreI
     cid, nid = me.recorded["content_id"], me.recorded["id"]
     if not isinstance(cid, HashVal) or not isinstance(nid, HashVal):
         raise Unencodable("content_id / id are not digests of an encodable pre-image")
-    return PreImages(cls, tag, props, dict(me.children), me.origin.fqn, cid.pre, nid.pre, cid.digest_size, list(me.calls), sorted(ev.constructs))
+    return PreImages(cls, tag, props, dict(me.children), me.origin.fqn, cid.pre, nid.pre, cid.digest_size, list(me.calls), sorted(ev.constructs), list(dict.fromkeys(ev.inlined)), list(dict.fromkeys(ev.assumed)))
 
 
 def free_vars(s: SymStr) -> list[SymVal]:
